@@ -78,7 +78,7 @@ def candidates(repo):
                 if '"#' in line or line.count('"') % 2 == 1:
                     in_raw = False
                 continue
-            if st.startswith("#[cfg(test)]") or st.startswith("mod tests") or st.startswith("mod test "):
+            if st.startswith("#[cfg(test)]") or st.startswith("#[test]") or st.startswith("mod tests") or st.startswith("mod test "):
                 in_test = True
             if in_test or st.startswith("//") or st.startswith("#[") or st.startswith("use ") or "unimock_verif" in line or "cfg(" in line:
                 continue
